@@ -7,7 +7,11 @@
 (* Kind selects the API surface: "sv" static_vector, "ipv" inplace_vector, "stack" etl::stack.       *)
 EXTENDS VectorOps, TLC, Json
 
-CONSTANTS Caps, Vals, Kind, MaxXs
+CONSTANTS Caps, Vals, Kind, MaxXs, Mode
+\* Mode = "valid": only calls inside the documented preconditions (C01/C03).
+\* Mode = "contract": additionally every reachable state offers the calls that VIOLATE a documented
+\*   precondition, at and beyond the boundary (C05); they are exported with bad = TRUE and do not
+\*   change the state (the contract-checked build must stop them in the assertion handler).
 
 VARIABLES cap, obj, mv, last
 \* obj \in [{"a","b"} -> Seq(Vals)], mv \in SUBSET {"a","b"} : objects in moved-from state
@@ -26,7 +30,8 @@ C(op, x) == [op |-> op, x |-> x]
 CallsSV(o) ==
     LET n == Len(obj[o]) IN
     {C(op, [X0 EXCEPT !.v = v]) : op \in PushOps, v \in Vals}
-    \cup {C("pop_back", X0), C("clear", X0), C("ctor_default", X0), C("erase_if_odd", X0)}
+    \cup {C("pop_back", X0), C("clear", X0), C("ctor_default", X0), C("erase_if_odd", X0), C("front", X0), C("back", X0)}
+    \cup {C("at", [X0 EXCEPT !.p = p]) : p \in 0..(n - 1)}
     \cup {C(op, [X0 EXCEPT !.p = p, !.v = v]) : op \in InsertOneOps, p \in 0..n, v \in Vals}
     \cup {C("insert_fill", [X0 EXCEPT !.p = p, !.n = k, !.v = v]) : p \in 0..n, k \in 0..(cap - n), v \in Vals}
     \cup {C("insert_range", [X0 EXCEPT !.p = p, !.xs = xs]) : p \in 0..n, xs \in SeqsUpTo(Min2(MaxXs, cap - n))}
@@ -43,16 +48,41 @@ CallsSV(o) ==
 
 CallsIPV(o) ==
     {C(op, [X0 EXCEPT !.v = v]) : op \in TryOps \cup UncheckedOps, v \in Vals}
-    \cup {C("pop_back", X0), C("clear", X0), C("ctor_default", X0)}
+    \cup {C("pop_back", X0), C("clear", X0), C("ctor_default", X0), C("front", X0), C("back", X0)}
+    \cup {C("at", [X0 EXCEPT !.p = p]) : p \in 0..(Len(obj[o]) - 1)}
     \cup {C(op, [X0 EXCEPT !.src = Other(o)]) : op \in {"ctor_copy", "ctor_move"}}
 
 CallsStack(o) ==
     {C(op, [X0 EXCEPT !.v = v]) : op \in PushOps, v \in Vals}
-    \cup {C("pop_back", X0), C("ctor_default", X0)}
+    \cup {C("pop_back", X0), C("ctor_default", X0), C("back", X0)}
     \cup {C(op, [X0 EXCEPT !.xs = xs]) : op \in {"ctor_range"}, xs \in SeqsUpTo(Min2(MaxXs, cap))}
     \cup {C(op, [X0 EXCEPT !.src = s]) : op \in {"swap", "fswap"}, s \in Objs \ mv}
     \cup {C(op, [X0 EXCEPT !.src = Other(o)]) : op \in {"ctor_copy", "ctor_move"}}
     \* etl::stack declares its copy/move constructors and therefore has no assignment operators: not drivable
+
+\* ---- calls that violate a documented precondition (argument at the boundary, one and two beyond) ----
+Beyond(k) == {k + 1, k + 2}
+BadSV(o) ==
+    LET n == Len(obj[o]) IN
+    {C(op, [X0 EXCEPT !.v = v]) : op \in PushOps, v \in {1}}
+    \cup {C("pop_back", X0), C("front", X0), C("back", X0)}
+    \cup {C("at", [X0 EXCEPT !.p = p]) : p \in {n} \cup Beyond(n)}
+    \cup {C(op, [X0 EXCEPT !.p = p, !.v = 1]) : op \in InsertOneOps, p \in 0..(n + 2)}
+    \cup {C("insert_fill", [X0 EXCEPT !.p = p, !.n = k, !.v = 1]) : p \in 0..(n + 2), k \in 0..(cap - n + 2)}
+    \cup {C("insert_range", [X0 EXCEPT !.p = p, !.xs = xs]) : p \in 0..(n + 1), xs \in {[i \in 1..k |-> 1] : k \in 0..(cap - n + 2)}}
+    \cup {C("erase_pos", [X0 EXCEPT !.p = p]) : p \in {n} \cup Beyond(n)}
+    \cup {C("erase_range", [X0 EXCEPT !.p = p, !.q = q]) : p \in 0..(n + 2), q \in 0..(n + 2)}
+    \cup {C("resize", [X0 EXCEPT !.n = k]) : k \in Beyond(cap)}
+    \cup {C(op, [X0 EXCEPT !.n = k, !.v = 1]) : op \in {"resize_val", "assign_fill", "ctor_fill"}, k \in Beyond(cap)}
+    \cup {C("ctor_n", [X0 EXCEPT !.n = k]) : k \in Beyond(cap)}
+    \cup {C(op, [X0 EXCEPT !.xs = [i \in 1..k |-> 1]]) : op \in {"assign_range", "ctor_range"}, k \in Beyond(cap)}
+BadIPV(o) ==
+    LET n == Len(obj[o]) IN
+    {C(op, [X0 EXCEPT !.v = 1]) : op \in UncheckedOps}
+    \cup {C("pop_back", X0), C("front", X0), C("back", X0)}
+    \cup {C("at", [X0 EXCEPT !.p = p]) : p \in {n} \cup Beyond(n)}
+BadStack(o) == {C(op, [X0 EXCEPT !.v = 1]) : op \in PushOps} \cup {C("pop_back", X0), C("back", X0)}
+BadCalls(o) == IF Kind = "sv" THEN BadSV(o) ELSE IF Kind = "ipv" THEN BadIPV(o) ELSE BadStack(o)
 
 Calls(o) == IF Kind = "sv" THEN CallsSV(o) ELSE IF Kind = "ipv" THEN CallsIPV(o) ELSE CallsStack(o)
 
@@ -65,7 +95,7 @@ Init ==
     /\ obj = [o \in Objs |-> <<>>]
     /\ mv = {}
     /\ last = [op |-> "init", o |-> "a", x |-> X0, pre |-> obj, post |-> obj, ret |-> 0, cap |-> cap,
-               premv |-> {}, postmv |-> {}]
+               premv |-> {}, postmv |-> {}, bad |-> FALSE]
 
 Step(o, c) ==
     /\ (o \in mv => c.op \in RevivingOps)
@@ -77,10 +107,22 @@ Step(o, c) ==
        IN /\ obj' = st2
           /\ mv' = m2
           /\ last' = [op |-> c.op, o |-> o, x |-> c.x, pre |-> obj, post |-> st2, ret |-> ef.ret,
-                      cap |-> cap, premv |-> mv, postmv |-> m2]
+                      cap |-> cap, premv |-> mv, postmv |-> m2, bad |-> FALSE]
     /\ cap' = cap
 
-Next == \E o \in Objs : \E c \in Calls(o) : Step(o, c)
+\* a call outside the documented domain: the contract-checked build has to stop it; abstractly nothing
+\* happens to the state (the process is gone)
+BadStep(o, c) ==
+    /\ Mode = "contract"
+    /\ o = "a" /\ Len(obj["b"]) <= 1      \* the other object only witnesses that it stays untouched
+    /\ mv = {}
+    /\ ~Pre(c.op, o, c.x, obj, cap)
+    /\ UNCHANGED <<cap, obj, mv>>
+    /\ last' = [op |-> c.op, o |-> o, x |-> c.x, pre |-> obj, post |-> obj, ret |-> 0, cap |-> cap,
+                premv |-> mv, postmv |-> mv, bad |-> TRUE]
+
+Next == \/ \E o \in Objs : \E c \in Calls(o) : Step(o, c)
+        \/ \E o \in Objs : \E c \in BadCalls(o) : BadStep(o, c)
 
 Spec == Init /\ [][Next]_vars
 
@@ -99,6 +141,9 @@ CapConst == [][cap' = cap]_vars
 
 \* a copy is independent of its source: an operation on o never changes the other object unless it
 \* is named as a swap partner or as a moved-from source
+\* contract model: valid and violating argument sets partition what is offered
+ContractPartition == [][last'.bad = ~Pre(last'.op, last'.o, last'.x, obj, cap)]_vars
+
 CopyIndependence ==
     [][\A o \in Objs :
           (last'.o # o /\ ~(last'.op \in {"swap", "fswap"} \cup MoveSrcOps /\ last'.x.src = o))
